@@ -1,5 +1,6 @@
 """C12: reverse_qubit_order mirrors every register and is its own inverse."""
 import modcheck
+import modcorr
 
 PROP = "C12"
 PREFIXES = [[], ["validate"], ["unroll"], ["depth"], ["unroll", "num_qubits"]]
@@ -12,6 +13,13 @@ def make_cases(rnd, tier, progs):
     for k in range(n):
         src = ps[k % len(ps)]
         body = [(0, q) for q in rnd.choice(PREFIXES)]
+        if rnd.random() < 0.45:
+            # other transformations first (on a module that may never have been unrolled): the transformation under
+            # test starts from whatever program and bookkeeping they leave
+            pre = [t for t in modcorr.TRANSFORMS]
+            body += [(0, rnd.choice(pre), True) for _ in range(rnd.randint(1, 2))]
+            if rnd.random() < 0.3:
+                body.append((0, rnd.choice(["unroll", "validate", "depth"])))
         nmod = 1
         inpl = rnd.random() < 0.7
         body.append((0, "reverse_qubit_order", inpl))
